@@ -172,9 +172,11 @@ func (c *Ctx) c17Map() {
 	if !m.ok {
 		return
 	}
-	deferV, ok1 := c.actionConst("ActionDefer")
-	denyV, ok2 := c.actionConst("ActionDeny")
-	if !ok1 || !ok2 {
+	if _, ok := c.actionConst("ActionDefer"); !ok {
+		r.Fatal("UNRESOLVED anchor=event.Action constants")
+		return
+	}
+	if _, ok := c.actionConst("ActionDeny"); !ok {
 		r.Fatal("UNRESOLVED anchor=event.Action constants")
 		return
 	}
@@ -185,38 +187,42 @@ func (c *Ctx) c17Map() {
 	if fCode == nil || fMsg == nil || recipAccept == nil || originAccept == nil {
 		return
 	}
+	isPolicy := func(in ssa.Instruction) bool {
+		call, ok := in.(*ssa.Call)
+		if !ok {
+			return false
+		}
+		g := eng.StaticCallee(call.Common())
+		return g == recipAccept || g == originAccept
+	}
+	accepts := func(in ssa.Instruction) bool {
+		if st, ok := in.(*ssa.Store); ok {
+			if fa, ok := st.Addr.(*ssa.FieldAddr); ok && eng.SameField(eng.FieldOfAddr(fa), m.fRecips) {
+				return true
+			}
+		}
+		return m.entersState("MAIL")(in)
+	}
+	changes := func(in ssa.Instruction) bool {
+		if _, _, isCall := m.stateArg(in); isCall {
+			return true
+		}
+		if st, ok := in.(*ssa.Store); ok {
+			if fa, ok := st.Addr.(*ssa.FieldAddr); ok {
+				f := eng.FieldOfAddr(fa)
+				return eng.SameField(f, m.fRecips) || eng.SameField(f, m.fFrom)
+			}
+		}
+		return false
+	}
 	n := 0
 	for _, fn := range m.fns {
 		fn := fn
-		// find the effective action phi in this function
-		var act ssa.Value
-		eng.EachInstr(fn, func(in ssa.Instruction) {
-			if ph, ok := in.(*ssa.Phi); ok && isExtAction(ph) {
-				act = ph
-			}
-		})
-		if act == nil {
-			continue
-		}
-		n++
-		cons := "hook-mapping@" + shortFn(fn)
-		var probs []string
-		// deny edge
-		var denyEdge *ssa.BasicBlock
-		for _, b := range fn.Blocks {
-			for k := 0; k < len(b.Succs) && len(b.Succs) == 2; k++ {
-				rel, ok := eng.EdgeRel(b, k)
-				if !ok || rel.Op != token.EQL || rel.X != act {
-					continue
-				}
-				if kk, isC := eng.ConstInt(rel.Y); isC && kk == denyV {
-					denyEdge = b.Succs[k]
-				}
-			}
-		}
-		if denyEdge == nil {
-			probs = append(probs, "no branch on action == Deny: a hook's deny is ignored")
-		} else {
+		for _, emit := range hookEmits(fn) {
+			n++
+			he := c.newHookEval(fn, emit)
+			cons := "hook-mapping@" + shortFn(fn)
+			var probs []string
 			usesHook := func(in ssa.Instruction) bool {
 				if !m.isSend(in) {
 					return false
@@ -224,7 +230,15 @@ func (c *Ctx) c17Map() {
 				call := in.(*ssa.Call)
 				hasCode, hasMsg := false, false
 				for _, a := range sprintfArgs(call.Call.Args[len(call.Call.Args)-1]) {
-					f := eng.LoadedField(unwrapIface(a))
+					u, ok := unwrapIface(a).(*ssa.UnOp)
+					if !ok {
+						continue
+					}
+					fa, ok := u.X.(*ssa.FieldAddr)
+					if !ok || !he.res[fa.X] {
+						continue
+					}
+					f := eng.FieldOfAddr(fa)
 					if eng.SameField(f, fCode) {
 						hasCode = true
 					}
@@ -234,86 +248,32 @@ func (c *Ctx) c17Map() {
 				}
 				return hasCode && hasMsg
 			}
-			if ret := eng.BlockReaches(denyEdge, eng.IsReturn, usesHook); ret != nil {
-				probs = append(probs, "the Deny edge can return without a reply built from the hook's ErrorCode and ErrorMsg")
+			// Deny: refused with the hook's code and text, nothing accepted or changed
+			fd := he.feasible(hcDeny)
+			if hit := (&eng.Search{Target: accepts, Edge: fd, DeepHit: true}).After(emit); hit != nil {
+				probs = append(probs, "with a Deny answer the accepting step at "+p.InstrPos(hit)+" is still reachable: a hook's deny is ignored")
+			} else if hit := (&eng.Search{Target: changes, Edge: fd}).After(emit); hit != nil {
+				probs = append(probs, "with a Deny answer the session state or envelope is changed at "+p.InstrPos(hit))
 			}
-			changes := func(in ssa.Instruction) bool {
-				if _, _, isCall := m.stateArg(in); isCall {
-					return true
-				}
-				if st, ok := in.(*ssa.Store); ok {
-					if fa, ok := st.Addr.(*ssa.FieldAddr); ok {
-						f := eng.FieldOfAddr(fa)
-						return eng.SameField(f, m.fRecips) || eng.SameField(f, m.fFrom)
-					}
-				}
-				return false
+			if ret := (&eng.Search{Target: eng.IsReturnOf(fn), Avoid: usesHook, Edge: fd}).After(emit); ret != nil {
+				probs = append(probs, "with a Deny answer the handler can return at "+p.InstrPos(ret)+" without a reply built from the hook's ErrorCode and ErrorMsg")
 			}
-			if hit := eng.BlockReaches(denyEdge, changes, nil); hit != nil {
-				probs = append(probs, "the Deny edge changes the session state or envelope at "+p.InstrPos(hit))
+			// Allow: accepted without consulting the domain policy
+			if (&eng.Search{Target: accepts, Avoid: isPolicy, Edge: he.feasible(hcAllow), Deep: true, DeepHit: true}).After(emit) == nil {
+				probs = append(probs, "with an Allow answer the accepting step is not reachable without the domain-policy call: Allow cannot override policy")
 			}
-		}
-		// policy call dominated by a == Defer
-		var pcall *ssa.Call
-		eng.EachInstr(fn, func(in ssa.Instruction) {
-			if call, ok := in.(*ssa.Call); ok {
-				g := eng.StaticCallee(call.Common())
-				if g == recipAccept || g == originAccept {
-					pcall = call
+			// Defer / no answer: the domain policy decides
+			for _, hc := range []hookCase{hcDefer, hcNil} {
+				if hit := (&eng.Search{Target: accepts, Avoid: isPolicy, Edge: he.feasible(hc), Deep: true, DeepHit: true}).After(emit); hit != nil {
+					probs = append(probs, "with "+hc.String()+" from the hook the accepting step at "+p.InstrPos(hit)+" is reachable without the domain-policy call: the answer is treated like Allow instead of falling back to policy")
 				}
 			}
-		})
-		if pcall == nil {
-			probs = append(probs, "no domain-policy call in the handler: Defer cannot fall back to policy")
-		} else {
-			under := false
-			for _, b := range fn.Blocks {
-				for k := 0; k < len(b.Succs) && len(b.Succs) == 2; k++ {
-					rel, ok := eng.EdgeRel(b, k)
-					if !ok || rel.Op != token.EQL || rel.X != act {
-						continue
-					}
-					if kk, isC := eng.ConstInt(rel.Y); isC && kk == deferV && eng.EdgeDominates(b, k, pcall.Block()) {
-						under = true
-					}
-				}
-			}
-			if !under {
-				probs = append(probs, "the domain-policy call is not conditional on action == Defer: an explicit Allow is overruled by policy")
-			}
-			// accepting step reachable on a != Defer without the policy call
-			var target eng.Pred
-			if eng.StaticCallee(pcall.Common()) == recipAccept {
-				target = func(in ssa.Instruction) bool {
-					st, ok := in.(*ssa.Store)
-					if !ok {
-						return false
-					}
-					fa, ok := st.Addr.(*ssa.FieldAddr)
-					return ok && eng.SameField(eng.FieldOfAddr(fa), m.fRecips)
-				}
+			sort.Strings(probs)
+			if len(probs) > 0 {
+				r.Bad("C17/MAP", cons, p.InstrPos(emit), "%s", strings.Join(probs, "; "))
 			} else {
-				target = m.entersState("MAIL")
+				r.Ok("C17/MAP", cons, p.InstrPos(emit), "case analysis over the hook's answer (none / Defer / Allow / Deny): Deny → hook's code and text, nothing accepted; Allow → accepted without policy; Defer or none → policy decides")
 			}
-			reach := false
-			for _, b := range fn.Blocks {
-				for k := 0; k < len(b.Succs) && len(b.Succs) == 2; k++ {
-					if notDeferEdge(b, k, deferV) {
-						if eng.BlockReaches(b.Succs[k], target, func(in ssa.Instruction) bool { return in == ssa.Instruction(pcall) }) != nil {
-							reach = true
-						}
-					}
-				}
-			}
-			if !reach {
-				probs = append(probs, "with action != Defer (Allow) the accepting step is not reachable without the policy call: Allow cannot override policy")
-			}
-		}
-		sort.Strings(probs)
-		if len(probs) > 0 {
-			r.Bad("C17/MAP", cons, p.Pos(fn.Pos()), "%s", strings.Join(probs, "; "))
-		} else {
-			r.Ok("C17/MAP", cons, p.Pos(fn.Pos()), "Deny → hook's code/text and return; policy only under Defer; Allow reaches acceptance without policy")
 		}
 	}
 	r.Floor("C17/MAP", "handlers mapping a hook result", n, 1)
